@@ -8,6 +8,7 @@ import itertools
 from fractions import Fraction as F
 
 import core
+from fns import big_shift_copies
 from adapters import Adapter
 from core import clist, obs_list, q, z
 from fns import frs, np_epoch_ns, unfr
@@ -228,6 +229,7 @@ def gen_flat(tier, rng):
     ad = FlatLine()
     for c in cases:
         c["dom"] = ad.in_domain(c)
+    cases += big_shift_copies(cases, "xs", rng, 150 if tier == "quick" else 1500, lambda c: True)
     return cases
 
 
